@@ -79,6 +79,8 @@ class Store:
 
 STORE = Store()
 settings = {"bonus": 10}
+RATIO: float = 2.5
+FLAG: bool = True
 
 '''
 
@@ -136,6 +138,9 @@ ATOMS = {
     "fstring_pair": dict(codes=[], enable=["use_fstrings"], lines=["print(\"%s and %s {n}\" % pair)"], simple=True),
     "fstring_width": dict(codes=[], enable=["use_fstrings"], lines=["print(\"%5d|%-3s\" % ({n}, q))"], simple=True),
     "fstring_width_s": dict(codes=[], enable=["use_fstrings"], lines=["print(\"item %8s|%-6s| {n}\" % (q, q))", "print(\"%4s\" % p)"], simple=False),
+    # %d truncates a float and prints a bool as 0/1; {x} does neither
+    "fstring_d_float": dict(codes=[], enable=["use_fstrings"], lines=["print(\"%d items {n}\" % RATIO)", "half_{n} = {n} / 2", "print(\"%d half\" % half_{n})"], simple=False),
+    "fstring_d_bool": dict(codes=[], enable=["use_fstrings"], lines=["print(\"%d flags {n}|%s\" % (FLAG, FLAG))"], simple=True),
     "fstring_width_plain": dict(codes=[], enable=["use_fstrings"], lines=["print(\"%10s|%5d| {n}\" % (q, p))", "print(\"%6s|\" % q)", "print(\"%3s|%3s\" % (q, pair))"], simple=False),
     "fstring_pct": dict(codes=[], enable=["use_fstrings"], lines=["print(\"100%% of %s {n}\" % q)"], simple=True),
     "fstring_dict": dict(codes=[], enable=["use_fstrings"], lines=["print(\"%(a)s {n}\" % {{\"a\": p}})"], simple=True),
